@@ -554,8 +554,8 @@ func relationShapeRule(P *Program, R *Report) {
 						conds := controllingConds(c.Block())
 						side := "?"
 						if len(conds) > 0 {
-							a := normAtom(conds[0])
-							side = fmt.Sprintf("%s is %s", desc(a.V), a.Want)
+							t, w := condText(conds[0])
+							side = fmt.Sprintf("%s is %s", t, w)
 						}
 						terms = append(terms, m+"->"+t.String()+" when "+side)
 					}
@@ -578,9 +578,8 @@ func relationShapeRule(P *Program, R *Report) {
 				}
 				onSign := Pred(-1)
 				for _, a := range controllingConds(c.Block()) {
-					a = normAtom(a)
-					if desc(a.V) == "(arg#1==1)" {
-						onSign = a.Want
+					if t, w := condText(a); t == "(arg#1==1)" {
+						onSign = w
 					}
 				}
 				switch {
@@ -666,15 +665,29 @@ func provesStatementRule(P *Program, R *Report) {
 			bx, by = by, bx
 		}
 		c, ok := bx.(*ssa.Call)
-		if !ok || bigMethod(c) != "Cmp" || desc(callArgs(c)[0]) != rpP+".K" {
+		if !ok || bigMethod(c) != "Cmp" {
 			return false
 		}
-		lv := phiLeavesNN(callArgs(c)[1])
+		// K.Cmp(bound') or, mirrored, bound'.Cmp(K)
+		kArg, bArg, mirrored := callArgs(c)[0], callArgs(c)[1], false
+		if desc(kArg) != rpP+".K" {
+			kArg, bArg, mirrored = bArg, kArg, true
+		}
+		if desc(kArg) != rpP+".K" {
+			return false
+		}
+		lv := phiLeavesNN(bArg)
 		if !(len(lv) == 2 && lv["arg#3"] && lv["new:big.Int"]) {
 			return false
 		}
 		d := desc(by)
-		return d == "0" || d == "arg#1"
+		if d == "0" {
+			return true // equality is symmetric
+		}
+		if mirrored {
+			return d == "-arg#1" || d == "(0-arg#1)"
+		}
+		return d == "arg#1"
 	}})
 }
 
